@@ -5,7 +5,7 @@ import subprocess
 
 CHECKS = {
     'C01': ('exploration', 'model-based stateful property testing (proptest histories vs reference map)',
-            'Generated histories over five registries are applied to the real World and to a plain reference map; snapshot, len and is_empty are compared after every operation and failures shrink to a minimal op list. Exploration is the right level: the property quantifies over all histories, shapes and orders, which only a generator can sample broadly; no proof is claimed.'),
+            'Generated histories over six registries are applied to the real World and to a plain reference map; snapshot, len and is_empty are compared after every operation and failures shrink to a minimal op list. Exploration is the right level: the property quantifies over all histories, shapes and orders, which only a generator can sample broadly; no proof is claimed.'),
     'C02': ('exploration', 'model-based stateful property testing with identifier probes after every step',
             'Every identifier returned must be new for the lineage; after every operation every issued identifier is resolved through contains, World::entry and Entries::entry and must resolve iff live and to its own values; batches are sized around the free-list length to force every kind of slot reuse.'),
     'C03': ('exploration', 'property-based differential testing of a generated query pool against a reference predicate',
@@ -85,7 +85,7 @@ def main():
             'replay_cmd_template': './verif replay {path}',
             'engine': engines_of[p],
             'level_claimed': {'category': level, 'text': text, 'design_ref': 'DESIGN.md section 4 (%s)' % p},
-            'level_note': 'finite type pools (five registries, six component kinds, compiled shapes/orders/queries); the reference model and the oracles of the harness are trusted; random search never establishes absence',
+            'level_note': 'finite type pools (six registries, six component kinds, compiled shapes/orders/queries); the reference model and the oracles of the harness are trusted; random search never establishes absence',
             'technique': tech,
         })
         seen.add(engines_of[p])
